@@ -29,10 +29,20 @@ use barter_execution::{
 };
 use barter_instrument::{
     Side, Underlying,
-    asset::{QuoteAsset, name::AssetNameExchange},
+    asset::{Asset, QuoteAsset, name::AssetNameExchange},
     exchange::{ExchangeId, ExchangeIndex},
     index::IndexedInstruments,
-    instrument::{Instrument, InstrumentIndex, name::InstrumentNameExchange},
+    instrument::{
+        Instrument, InstrumentIndex,
+        kind::{
+            InstrumentKind,
+            future::FutureContract,
+            option::{OptionContract, OptionExercise, OptionKind},
+            perpetual::PerpetualContract,
+        },
+        name::InstrumentNameExchange,
+        quote::InstrumentQuoteAsset,
+    },
 };
 use barter_integration::{
     channel::{Tx, mpsc_unbounded},
@@ -66,6 +76,8 @@ enum Beh {
     /// key, v=1 unknown asset name inside the error)
     BadKey { d: u64, v: u64 },
     Never,
+    /// the client future panics after `d` ms
+    Panic { d: u64 },
 }
 
 #[derive(Clone, Debug)]
@@ -89,6 +101,10 @@ struct Input {
     script: Vec<Req>,
     /// closed-loop load run (see `FloodStream`): the cap on requests handed out; `script` unused
     flood: Option<u64>,
+    /// sub-millisecond jitter seed (0 = all durations are whole milliseconds)
+    jitter: u64,
+    /// drop the response receiver at this virtual ms while the manager keeps running
+    close_rx_at: Option<u64>,
 }
 
 fn beh_json(b: &Beh) -> Value {
@@ -96,6 +112,7 @@ fn beh_json(b: &Beh) -> Value {
         Beh::Respond { d, ok, full, e } => json!({"t": "r", "d": d, "ok": ok, "full": full, "e": e}),
         Beh::BadKey { d, v } => json!({"t": "bad", "d": d, "v": v}),
         Beh::Never => json!({"t": "never"}),
+        Beh::Panic { d } => json!({"t": "panic", "d": d}),
     }
 }
 fn beh_from(v: &Value) -> Beh {
@@ -108,6 +125,7 @@ fn beh_from(v: &Value) -> Beh {
             e: u("e") % 7,
         },
         "bad" => Beh::BadKey { d: u("d"), v: u("v") % 2 },
+        "panic" => Beh::Panic { d: u("d") },
         _ => Beh::Never,
     }
 }
@@ -116,7 +134,7 @@ impl Input {
     fn to_json(&self) -> Value {
         json!({
             "exchanges": self.exchanges, "instr": self.instr, "mgr": self.mgr, "tau": self.tau,
-            "stop": self.stop, "via_init": self.via_init, "flood": self.flood,
+            "stop": self.stop, "via_init": self.via_init, "flood": self.flood, "jitter": self.jitter, "close_rx_at": self.close_rx_at,
             "script": self.script.iter().map(|r| json!({
                 "k": if r.open { "o" } else { "c" }, "x": r.x, "i": r.i, "cid": r.cid, "at": r.at,
                 "b": beh_json(&r.b)})).collect::<Vec<_>>(),
@@ -147,11 +165,13 @@ impl Input {
             exchanges,
             instr,
             mgr: us(&v["mgr"]),
-            tau: v["tau"].as_u64().unwrap_or(1000).max(1),
+            tau: v["tau"].as_u64().unwrap_or(1000),
             stop: v["stop"].as_u64(),
             via_init: v["via_init"].as_bool().unwrap_or(false),
             script,
             flood: v["flood"].as_u64(),
+            jitter: v["jitter"].as_u64().unwrap_or(0),
+            close_rx_at: v["close_rx_at"].as_u64(),
         }
     }
 }
@@ -215,6 +235,27 @@ fn err_name<A, I>(e: &OrderError<A, I>) -> Option<&'static str> {
     })
 }
 
+/// The real duration used for a scripted `ms` milliseconds.  With `jitter == 0` exactly `ms` ms.
+/// Otherwise `ms` ms MINUS 1..=999 microseconds (a deterministic function of `jitter` and `salt`):
+/// tokio's timer rounds every deadline UP to the next millisecond, so the behaviour (and the
+/// model's millisecond values) must be the same — unless the code under test truncates or
+/// compares durations at a coarser resolution.
+fn real(ms: u64, jitter: u64, salt: u64) -> Duration {
+    if jitter == 0 || ms == 0 {
+        return Duration::from_millis(ms);
+    }
+    let mut z = jitter.wrapping_mul(0x9E37_79B9_7F4A_7C15) ^ salt.wrapping_mul(0xBF58_476D_1CE4_E5B9);
+    z ^= z >> 29;
+    z = z.wrapping_mul(0x94D0_49BB_1331_11EB);
+    z ^= z >> 32;
+    let j = match z % 5 {
+        0 => 1,
+        1 => 999,
+        _ => 1 + (z >> 8) % 999,
+    };
+    Duration::from_micros(ms * 1000 - j)
+}
+
 // ---- scripted client ------------------------------------------------------------------------------
 
 type Script = Arc<Mutex<HashMap<(bool, u64), VecDeque<Beh>>>>;
@@ -225,6 +266,8 @@ struct Scripted {
     exchange: ExchangeId,
     /// behaviour for a request the script has no entry for
     default_beh: Beh,
+    /// sub-millisecond jitter seed (0 = none), see `real`
+    jitter: u64,
 }
 
 impl Scripted {
@@ -237,11 +280,11 @@ impl Scripted {
 
 impl ExecutionClient for Scripted {
     const EXCHANGE: ExchangeId = ExchangeId::Mock;
-    type Config = (Script, ExchangeId, Beh);
+    type Config = (Script, ExchangeId, Beh, u64);
     type AccountStream = futures::stream::Pending<UnindexedAccountEvent>;
 
     fn new(config: Self::Config) -> Self {
-        Scripted { script: config.0, exchange: config.1, default_beh: config.2 }
+        Scripted { script: config.0, exchange: config.1, default_beh: config.2, jitter: config.3 }
     }
 
     async fn account_snapshot(
@@ -269,6 +312,7 @@ impl ExecutionClient for Scripted {
         request: OrderRequestCancel<ExchangeId, &InstrumentNameExchange>,
     ) -> impl Future<Output = UnindexedOrderResponseCancel> + Send {
         let beh = self.next_behaviour(false, &request.key.cid);
+        let jitter = self.jitter;
         let key = OrderKey {
             exchange: request.key.exchange,
             instrument: request.key.instrument.clone(),
@@ -279,7 +323,7 @@ impl ExecutionClient for Scripted {
             let c = cid_num(&key.cid).unwrap_or(0);
             match beh {
                 Beh::Respond { d, ok, e, .. } => {
-                    tokio::time::sleep(Duration::from_millis(d)).await;
+                    tokio::time::sleep(real(d, jitter, c * 13 + 2)).await;
                     UnindexedOrderResponseCancel {
                         state: if ok {
                             Ok(Cancelled { id: order_id_of(c), time_exchange: t_exchange() })
@@ -290,7 +334,7 @@ impl ExecutionClient for Scripted {
                     }
                 }
                 Beh::BadKey { d, v } => {
-                    tokio::time::sleep(Duration::from_millis(d)).await;
+                    tokio::time::sleep(real(d, jitter, c * 13 + 2)).await;
                     if v == 0 {
                         UnindexedOrderResponseCancel {
                             key: OrderKey { instrument: InstrumentNameExchange::new("NOT_CONFIGURED"), ..key },
@@ -307,6 +351,10 @@ impl ExecutionClient for Scripted {
                     }
                 }
                 Beh::Never => std::future::pending().await,
+                Beh::Panic { d } => {
+                    tokio::time::sleep(real(d, jitter, c * 13 + 2)).await;
+                    panic!("scripted client panic")
+                }
             }
         }
     }
@@ -317,6 +365,7 @@ impl ExecutionClient for Scripted {
     ) -> impl Future<Output = Order<ExchangeId, InstrumentNameExchange, Result<Open, UnindexedOrderError>>> + Send
     {
         let beh = self.next_behaviour(true, &request.key.cid);
+        let jitter = self.jitter;
         let key = OrderKey {
             exchange: request.key.exchange,
             instrument: request.key.instrument.clone(),
@@ -338,7 +387,7 @@ impl ExecutionClient for Scripted {
             };
             match beh {
                 Beh::Respond { d, ok, full, e } => {
-                    tokio::time::sleep(Duration::from_millis(d)).await;
+                    tokio::time::sleep(real(d, jitter, c * 13 + 2)).await;
                     let state = if ok {
                         Ok(Open {
                             id: order_id_of(c),
@@ -357,7 +406,7 @@ impl ExecutionClient for Scripted {
                     mk(key, state)
                 }
                 Beh::BadKey { d, v } => {
-                    tokio::time::sleep(Duration::from_millis(d)).await;
+                    tokio::time::sleep(real(d, jitter, c * 13 + 2)).await;
                     if v == 0 {
                         mk(
                             OrderKey { instrument: InstrumentNameExchange::new("NOT_CONFIGURED"), ..key },
@@ -374,6 +423,10 @@ impl ExecutionClient for Scripted {
                     }
                 }
                 Beh::Never => std::future::pending().await,
+                Beh::Panic { d } => {
+                    tokio::time::sleep(real(d, jitter, c * 13 + 2)).await;
+                    panic!("scripted client panic")
+                }
             }
         }
     }
@@ -398,15 +451,40 @@ impl ExecutionClient for Scripted {
 
 fn build_instruments(inp: &Input) -> IndexedInstruments {
     let pairs = [("btc", "usdt"), ("eth", "usdt"), ("sol", "usdt")];
+    let expiry = DateTime::<Utc>::from_timestamp(1_800_000_000, 0).unwrap();
     let mut b = IndexedInstruments::builder();
     for (j, &p) in inp.exchanges.iter().enumerate() {
         let ex = POOL[p % POOL.len()];
-        for (base, quote) in pairs.iter().take(inp.instr[j].clamp(1, 3)) {
-            b = b.add_instrument(Instrument::spot(
+        for (k, (base, quote)) in pairs.iter().take(inp.instr[j].clamp(1, 3)).enumerate() {
+            // instrument kinds vary with the position: spot, perpetual (contract 0.001, settled
+            // in the quote asset), future (contract 100, settled in the base asset), option
+            let kind = match (j + k) % 4 {
+                0 => InstrumentKind::Spot,
+                1 => InstrumentKind::Perpetual(PerpetualContract {
+                    contract_size: Decimal::new(1, 3),
+                    settlement_asset: Asset::from(*quote),
+                }),
+                2 => InstrumentKind::Future(FutureContract {
+                    contract_size: Decimal::new(100, 0),
+                    settlement_asset: Asset::from(*base),
+                    expiry,
+                }),
+                _ => InstrumentKind::Option(OptionContract {
+                    contract_size: Decimal::new(1, 2),
+                    settlement_asset: Asset::from(*quote),
+                    kind: OptionKind::Put,
+                    exercise: OptionExercise::European,
+                    expiry,
+                    strike: Decimal::new(50_000, 0),
+                }),
+            };
+            b = b.add_instrument(Instrument::new(
                 ex,
-                format!("{}_{}_{}", ex.as_str(), base, quote),
-                format!("{}-{}-{}", base, quote, ex.as_str()).to_uppercase(),
-                Underlying::new(*base, *quote),
+                format!("{}_{}_{}_{}", ex.as_str(), base, quote, (j + k) % 4),
+                format!("{}-{}-{}-{}", base, quote, ex.as_str(), (j + k) % 4).to_uppercase(),
+                Underlying::new(Asset::from(*base), Asset::from(*quote)),
+                InstrumentQuoteAsset::UnderlyingQuote,
+                kind,
                 None,
             ));
         }
@@ -500,6 +578,13 @@ fn observe(ev: &AccountStreamEvent, t: u64) -> Option<Seen> {
     }
 }
 
+/// virtual time of an observation in ms; virtual time only ever stands on whole milliseconds
+/// (tokio's timer granularity) — anything else is reported as an unexpected observation
+fn stamp(start: tokio::time::Instant) -> u64 {
+    let us = (tokio::time::Instant::now() - start).as_micros() as u64;
+    if us % 1000 == 0 { us / 1000 } else { u64::MAX / 2 + us }
+}
+
 /// Result of running one case on the implementation.
 struct Ran {
     seen: Vec<Seen>,
@@ -509,7 +594,7 @@ struct Ran {
 async fn drive<St>(
     inp: Input,
     req_tx: barter_integration::channel::UnboundedTx<ExecutionRequest>,
-    mut events: St,
+    events: St,
     handle: tokio::task::JoinHandle<()>,
     start: tokio::time::Instant,
 ) -> Ran
@@ -520,12 +605,14 @@ where
     let horizon = inp
         .script
         .iter()
-        .map(|r| r.at + inp.tau.max(match r.b { Beh::Respond { d, .. } | Beh::BadKey { d, .. } => d.min(inp.tau), Beh::Never => 0 }))
+        .map(|r| r.at + inp.tau.max(match r.b { Beh::Respond { d, .. } | Beh::BadKey { d, .. } | Beh::Panic { d } => d.min(inp.tau), Beh::Never => 0 }))
         .max()
         .unwrap_or(0)
         + 50;
     let shutdown_at = inp.stop.unwrap_or(horizon);
     let script = inp.script.clone();
+    let jitter = inp.jitter;
+    let close_at = inp.close_rx_at;
     let sender = tokio::spawn(async move {
         let mut shutdown_sent = false;
         for r in &script {
@@ -534,7 +621,7 @@ where
                 let _ = req_tx.send(ExecutionRequest::Shutdown);
                 shutdown_sent = true;
             }
-            tokio::time::sleep_until(start + Duration::from_millis(r.at)).await;
+            tokio::time::sleep_until(start + real(r.at, jitter, r.cid * 7 + 1)).await;
             let _ = req_tx.send(make_request(r));
         }
         if !shutdown_sent {
@@ -548,15 +635,18 @@ where
     let mut seen = vec![];
     // the response channel closes when the manager's run() returns or panics (it owns the only
     // transmitter); with `init` the merged stream also carries the (pending) account stream, so
-    // stop when the manager task has finished and nothing more is buffered
+    // stop when the manager task has finished and nothing more is buffered.  With `close_rx_at`
+    // the receiver is dropped at that time while the manager keeps running.
     let mut handle = handle;
+    let mut events = Some(events);
     let end;
     loop {
+        let closing = close_at.is_some() && events.is_some();
         tokio::select! {
             biased;
-            ev = events.next() => match ev {
+            ev = async { match events.as_mut() { Some(e) => e.next().await, None => std::future::pending().await } } => match ev {
                 Some(ev) => {
-                    let t = (tokio::time::Instant::now() - start).as_millis() as u64;
+                    let t = stamp(start);
                     if let Some(s) = observe(&ev, t) { seen.push(s) }
                 }
                 None => {
@@ -564,11 +654,16 @@ where
                     break;
                 }
             },
+            _ = async { if closing { tokio::time::sleep_until(start + Duration::from_millis(close_at.unwrap_or(0))).await } else { std::future::pending::<()>().await } } => {
+                events = None; // drops the receiver: the manager's next send fails
+            },
             res = &mut handle => {
                 // drain what is already buffered
-                while let Some(Some(ev)) = futures::FutureExt::now_or_never(events.next()) {
-                    let t = (tokio::time::Instant::now() - start).as_millis() as u64;
-                    if let Some(s) = observe(&ev, t) { seen.push(s) }
+                if let Some(e) = events.as_mut() {
+                    while let Some(Some(ev)) = futures::FutureExt::now_or_never(e.next()) {
+                        let t = stamp(start);
+                        if let Some(s) = observe(&ev, t) { seen.push(s) }
+                    }
                 }
                 end = match res { Ok(()) => "ObsReturned", Err(_) => "ObsPanicked" };
                 break;
@@ -594,8 +689,8 @@ fn run_on_runtime(inp: Input) -> Ran {
         for r in &inp.script {
             table.entry((r.open, r.cid)).or_default().push_back(r.b.clone());
         }
-        let client = Arc::new(Scripted::new((Arc::new(Mutex::new(table)), exchange, Beh::Never)));
-        let tau = Duration::from_millis(inp.tau);
+        let client = Arc::new(Scripted::new((Arc::new(Mutex::new(table)), exchange, Beh::Never, inp.jitter)));
+        let tau = real(inp.tau, inp.jitter, 3);
         let (req_tx, req_rx) = mpsc_unbounded::<ExecutionRequest>();
         let start = tokio::time::Instant::now();
         if inp.via_init {
@@ -757,6 +852,7 @@ fn run_flood_on_runtime(inp: Input, cap: u64) -> FloodRan {
             Arc::new(Mutex::new(HashMap::new())),
             exchange,
             Beh::Respond { d: 0, ok: true, full: false, e: 0 },
+            0,
         )));
         let (req_tx, req_rx) = tokio::sync::mpsc::unbounded_channel::<ExecutionRequest>();
         let (resp_tx, resp_rx) = mpsc_unbounded::<AccountStreamEvent>();
@@ -872,7 +968,9 @@ fn coq_beh(b: &Beh) -> String {
             if *ok { format!("(ROk {})", self::b(*full)) } else { format!("(RErr {})", ERR_NAMES[(*e % 7) as usize]) }
         ),
         Beh::BadKey { d, .. } => format!("(RespondBadKey {})", n(*d as u128)),
-        Beh::Never => "Never".to_string(),
+        // the request whose client future panics is listed as never answered; the panic time is
+        // the case's stop time (Corr/C07.v, Crash)
+        Beh::Never | Beh::Panic { .. } => "Never".to_string(),
     }
 }
 fn coq_req(r: &Req) -> String {
@@ -898,6 +996,8 @@ fn classify(inp: &Input, r: &Req) -> String {
         Beh::BadKey { d, .. } if *d < inp.tau => format!("{k}:unindexable_response_dropped"),
         Beh::BadKey { .. } => format!("{k}:late_unindexable_timeout"),
         Beh::Never => format!("{k}:never_timeout"),
+        Beh::Panic { d } if *d < inp.tau => format!("{k}:client_future_panics"),
+        Beh::Panic { .. } => format!("{k}:client_panic_after_timeout_never_polled"),
     }
 }
 
@@ -924,6 +1024,17 @@ fn emit(em: &mut Emitter, stream: &'static str, inp: &Input) {
     tags.push(format!("end:{}", ran.end));
     if inp.via_init { tags.push("via_init".into()) }
     if inp.stop.is_some() { tags.push("scripted_shutdown".into()) }
+    if inp.close_rx_at.is_some() { tags.push("response_receiver_dropped".into()) }
+    if inp.jitter != 0 { tags.push("sub_ms_jitter".into()) }
+    if inp.tau == 0 { tags.push("timeout_zero".into()) }
+    // a client future that panics before its timeout: the (first) such instant
+    let crash_at = inp
+        .script
+        .iter()
+        .filter_map(|r| match r.b { Beh::Panic { d } if d < inp.tau => Some(r.at + d), _ => None })
+        .min();
+    // towards the model a dropped receiver is a stop at that time: nothing later is observable
+    let coq_stop = crash_at.or(inp.stop).or(inp.close_rx_at);
     let obs: Vec<String> = ran
         .seen
         .iter()
@@ -933,11 +1044,12 @@ fn emit(em: &mut Emitter, stream: &'static str, inp: &Input) {
         })
         .collect();
     let coq = format!(
-        "(Script (mkCase (mkMgr {} {} {}) {} {} {} {}))",
+        "({} (mkCase (mkMgr {} {} {}) {} {} {} {}))",
+        if crash_at.is_some() { "Crash" } else { "Script" },
         n(ex_index as u128),
         list(&own),
         n(inp.tau as u128),
-        opt(inp.stop.map(|s| n(s as u128))),
+        opt(coq_stop.map(|s| n(s as u128))),
         list(&inp.script.iter().map(coq_req).collect::<Vec<_>>()),
         list(&obs),
         ran.end
@@ -970,7 +1082,12 @@ fn gen_world(r: &mut Rng) -> World {
     let exchanges: Vec<usize> = pool[..n_ex].to_vec();
     let instr: Vec<usize> = (0..n_ex).map(|_| 1 + r.below(3) as usize).collect();
     let mgr = *r.pick(&exchanges);
-    let probe = Input { exchanges: exchanges.clone(), instr: instr.clone(), mgr, tau: 1, stop: None, via_init: false, script: vec![], flood: None };
+    world_of(exchanges, instr, mgr)
+}
+
+fn world_of(exchanges: Vec<usize>, instr: Vec<usize>, mgr: usize) -> World {
+    let n_ex = exchanges.len();
+    let probe = Input { exchanges: exchanges.clone(), instr: instr.clone(), mgr, tau: 1, stop: None, via_init: false, script: vec![], flood: None, jitter: 0, close_rx_at: None };
     let instruments = build_instruments(&probe);
     let ex = POOL[mgr];
     let ex_index = instruments.exchanges().iter().find(|e| e.value == ex).unwrap().key.0;
@@ -1010,7 +1127,7 @@ fn gen_beh(r: &mut Rng, tau: u64, allow_tie: bool, bad_pct: u64) -> Beh {
 /// of resolution times: a tie between Shutdown and a completion is a scheduling coin-flip)
 fn ctime(tau: u64, r: &Req) -> u64 {
     r.at + match r.b {
-        Beh::Respond { d, .. } | Beh::BadKey { d, .. } => d.min(tau),
+        Beh::Respond { d, .. } | Beh::BadKey { d, .. } | Beh::Panic { d } => d.min(tau),
         Beh::Never => tau,
     }
 }
@@ -1021,17 +1138,24 @@ fn gen_script(r: &mut Rng, w: &World, tau: u64, n_req: u64, allow_tie: bool, bad
     let mut next_cid = r.below(50);
     for _ in 0..n_req {
         if !(burst && r.chance(3, 4)) {
-            t += match r.below(6) {
+            t += match r.below(8) {
                 0 => 0,
                 1 => 1,
                 2 => tau,
                 3 => tau / 2,
+                // an idle gap well beyond the timeout: the manager sits parked in select!
+                4 => tau * (2 + r.below(8)) + r.below(3),
+                5 => tau + 1,
                 _ => r.below(2 * tau + 1),
             };
         }
         let cid = if dup_cids && !script.is_empty() && r.chance(1, 3) {
             let q: &Req = r.pick(&script);
             q.cid
+        } else if r.chance(1, 6) && next_cid < 1_000_000 {
+            // client order ids sharing a prefix ("c12", "c121", "c1212", ...)
+            next_cid = next_cid * 10 + r.below(3);
+            next_cid
         } else {
             next_cid += 1 + r.below(3);
             next_cid
@@ -1049,7 +1173,7 @@ fn gen_script(r: &mut Rng, w: &World, tau: u64, n_req: u64, allow_tie: bool, bad
 }
 
 fn gen_tau(r: &mut Rng) -> u64 {
-    *r.pick(&[1u64, 2, 5, 10, 50, 100, 1000, 5000])
+    *r.pick(&[0u64, 1, 2, 5, 10, 50, 100, 1000, 5000])
 }
 
 fn gen_random(r: &mut Rng, max_req: u64) -> Input {
@@ -1058,15 +1182,20 @@ fn gen_random(r: &mut Rng, max_req: u64) -> Input {
     let n_req = 1 + r.below(max_req);
     let burst = r.chance(1, 3);
     let script = gen_script(r, &w, tau, n_req, false, 0, false, burst);
-    Input { exchanges: w.exchanges, instr: w.instr, mgr: w.mgr, tau, stop: None, via_init: r.chance(1, 4), script, flood: None }
+    let jitter = if r.chance(1, 3) { 1 + r.below(1_000_000) } else { 0 };
+    Input { exchanges: w.exchanges, instr: w.instr, mgr: w.mgr, tau, stop: None, via_init: r.chance(1, 4), script, flood: None, jitter, close_rx_at: None }
 }
 
 fn gen_adversarial(r: &mut Rng, max_req: u64) -> Input {
-    let w = gen_world(r);
-    let tau = gen_tau(r);
+    let style = r.below(9);
+    // half of the time the manager serves the MIDDLE exchange of three
+    let w = if r.chance(1, 2) { gen_world_middle(r) } else { gen_world(r) };
+    let tau = if style == 7 { gen_tau(r).max(2) } else { gen_tau(r) };
     let n_req = 1 + r.below(max_req);
-    let style = r.below(5);
     let mut script = match style {
+        // the same request repeated over time: (kind, cid) asked again after it timed out /
+        // was answered, again while still outstanding, and an open and a cancel of one cid together
+        5 => gen_retries(r, &w, tau, n_req),
         // ties delay == tau
         0 => gen_script(r, &w, tau, n_req, true, 0, false, false),
         // duplicate client order ids (open then cancel of the same order, repeated opens)
@@ -1110,7 +1239,81 @@ fn gen_adversarial(r: &mut Rng, max_req: u64) -> Input {
             }
         }
     }
-    Input { exchanges: w.exchanges, instr: w.instr, mgr: w.mgr, tau, stop, via_init: r.chance(1, 4), script, flood: None }
+    let mut close_rx_at = None;
+    if style == 6 {
+        // the response receiver is dropped while requests are outstanding, clear of resolution times
+        let last = script.iter().map(|q| ctime(tau, q)).max().unwrap_or(0);
+        for _ in 0..20 {
+            let s = r.below(last + 2);
+            if script.iter().all(|q| ctime(tau, q) != s) {
+                close_rx_at = Some(s);
+                break;
+            }
+        }
+    }
+    if style == 7 {
+        // one client future panics before its timeout, clear of every other resolution time
+        let pos = r.below(script.len() as u64) as usize;
+        for _ in 0..20 {
+            let d = r.below(tau);
+            let p = script[pos].at + d;
+            if script.iter().enumerate().all(|(k, q)| k == pos || ctime(tau, q) != p) {
+                script[pos].b = Beh::Panic { d };
+                // its (kind, cid) must be unique so that the scripted behaviour reaches this request
+                script[pos].cid = 900_000 + pos as u64;
+                break;
+            }
+        }
+    }
+    let jitter = if style == 8 || r.chance(1, 5) { 1 + r.below(1_000_000) } else { 0 };
+    Input { exchanges: w.exchanges, instr: w.instr, mgr: w.mgr, tau, stop, via_init: r.chance(1, 4), script, flood: None, jitter, close_rx_at }
+}
+
+/// the manager serves the middle exchange (by index) of three
+fn gen_world_middle(r: &mut Rng) -> World {
+    let mut pool: Vec<usize> = (0..POOL.len()).collect();
+    r.shuffle(&mut pool);
+    let exchanges: Vec<usize> = pool[..3].to_vec();
+    let instr: Vec<usize> = (0..3).map(|_| 1 + r.below(3) as usize).collect();
+    let mut ids: Vec<ExchangeId> = exchanges.iter().map(|&p| POOL[p]).collect();
+    ids.sort();
+    let mgr = *exchanges.iter().find(|&&p| POOL[p] == ids[1]).unwrap();
+    world_of(exchanges, instr, mgr)
+}
+
+/// L7: repetition of one key over time
+fn gen_retries(r: &mut Rng, w: &World, tau: u64, n_req: u64) -> Vec<Req> {
+    let mut script: Vec<Req> = vec![];
+    let mut t = r.below(3 * tau + 2);
+    let mut cid = 10 + r.below(40);
+    while (script.len() as u64) < n_req + 2 {
+        cid += 1 + r.below(2);
+        let open = r.chance(1, 3);
+        let i = *r.pick(&w.own);
+        let reps = 2 + r.below(2);
+        for k in 0..reps {
+            // first attempt mostly times out, later ones mixed
+            let b = if k == 0 && r.chance(2, 3) {
+                if r.chance(1, 2) { Beh::Never } else { Beh::Respond { d: tau + 1 + r.below(2 * tau + 1), ok: true, full: false, e: 0 } }
+            } else {
+                gen_beh(r, tau, false, 0)
+            };
+            script.push(Req { open, x: w.ex_index, i, cid, at: t, b });
+            t += match r.below(4) {
+                0 => 0,                       // again while the first is still outstanding
+                1 => tau + 1 + r.below(3),    // right after the timeout
+                2 => tau.saturating_sub(1),
+                _ => tau * (2 + r.below(4)),
+            };
+        }
+        if r.chance(1, 2) {
+            // an open and a cancel of the same client order id outstanding together
+            script.push(Req { open: !open, x: w.ex_index, i, cid, at: t, b: gen_beh(r, tau, false, 0) });
+            script.push(Req { open, x: w.ex_index, i, cid, at: t, b: gen_beh(r, tau, false, 0) });
+        }
+    }
+    script.sort_by_key(|q| q.at);
+    script
 }
 
 /// Exhaustive table over the abstract domain one request's fate depends on:
@@ -1130,8 +1333,9 @@ fn table(em: &mut Emitter) {
         behs.push(Beh::BadKey { d, v: 0 });
         behs.push(Beh::BadKey { d, v: 1 });
     }
-    let base = |script: Vec<Req>| Input { exchanges: vec![0, 1], instr: vec![2, 2], mgr: 0, tau, stop: None, via_init: false, script, flood: None };
-    // Kraken is pool 0; index order: BinanceSpot(0), Kraken(1); Kraken's instruments: 2, 3
+    let base = |script: Vec<Req>| Input { exchanges: vec![0, 1, 2], instr: vec![2, 2, 2], mgr: 0, tau, stop: None, via_init: false, script, flood: None, jitter: 0, close_rx_at: None };
+    // Kraken is pool 0; index order: BinanceSpot(0), Kraken(1), Okx(2): the manager serves the middle
+    // exchange; Kraken's instruments are 2 and 3 (a future and an option)
     for open in [true, false] {
         for b in &behs {
             em_case(em, &base(vec![Req { open, x: 1, i: 3, cid: 7, at: 5, b: b.clone() }]));
@@ -1177,6 +1381,8 @@ fn main() {
                     via_init: false,
                     script: vec![],
                     flood: Some(*r.pick(&[200u64, 800, 4000])),
+                    jitter: 0,
+                    close_rx_at: None,
                 };
                 let _ = k;
                 emit(&mut em, "adversarial", &inp);
